@@ -44,3 +44,90 @@ package component_definition
 //@ pure
 //@ assigns nothing
 //@ ensures [meta-name] result == ite(m.alias != "", m.alias, m.name)
+
+// ---- injection (C01, C02, C03, C06, C07, C09) ----------------------------------------------------------------------
+//   IsSelfOf(n, m)   candidate m is the holder of injection point n itself
+//   SingleP(n)       the point is single-valued (not a slice or array field)
+//   TargetType(n)    the type a candidate's value must be assignable to (field type, or element type of a slice field)
+//@ spec func IsSelfOf(n *Property, m *Meta) bool = RPtr(n.Holder.Meta.Value) == m.originAddress
+//@ spec func SingleP(n *Property) bool = n.Type.Kind() != 23 && n.Type.Kind() != 17
+//@ spec func TargetType(n *Property) reflect.Type = ite(SingleP(n), n.Type, RElemType(n.Type))
+//@ spec func PointOK(n *Property) bool = n != nil && n.Field != nil && n.Field.Base != nil && n.Type != nil && n.Holder != nil && n.Holder.Meta != nil && n.Holder.Meta.Base != nil
+//@ spec func MetaOK(m *Meta) bool = m != nil && m.Base != nil && m.dependentSet != nil
+
+//@ func (*Meta).IsSelf
+//@ property C02
+//@ pure
+//@ requires [metas-built] m != nil && m.Base != nil && o != nil && o.Base != nil
+//@ assigns nothing
+//@ ensures [is-self] result == (RPtr(m.Value) == o.originAddress)
+
+//@ func (*Meta).ID
+//@ pure
+//@ assigns nothing
+
+// filter: same contract as fas.Filter (sound, order-preserving, complete), ghost witnesses FilterSrc / FilterPos.
+//@ func filter#f
+//@ pure
+
+//@ func filter
+//@ property C02 C06
+//@ requires [f-callable] forall(k, int, implies(0 <= k && k < len(metas), callpre(f, metas[k])))
+//@ assigns FilterSrc, FilterPos
+//@ ensures [subsequence] forall(i, int, implies(0 <= i && i < len(result), 0 <= FilterSrc[i] && FilterSrc[i] < len(metas) && result[i] == metas[FilterSrc[i]] && tag(result, i) == tag(metas, FilterSrc[i]) && call(f, result[i])), FilterSrc[i], result[i], tag(result, i))
+//@ ensures [order-kept] forall(i, int, forall(j, int, implies(0 <= i && i < j && j < len(result), FilterSrc[i] < FilterSrc[j]), FilterSrc[j]), FilterSrc[i])
+//@ ensures [complete] forall(k, int, implies(0 <= k && k < len(metas) && call(f, metas[k]), 0 <= FilterPos[k] && FilterPos[k] < len(result) && FilterSrc[FilterPos[k]] == k), metas[k], FilterPos[k])
+//@ ensures [input-untouched] forall(i, int, implies(0 <= i && i < len(metas), metas[i] == oldat(metas, i))) && fresh(result) && len(result) <= len(metas)
+//@ loop 1 invariant [bounds] 0 <= _done && _done <= len(metas) && len(result) <= _done
+//@ loop 1 invariant [input-kept] forall(i, int, implies(0 <= i && i < len(metas), metas[i] == oldat(metas, i) && tag(metas, i) == oldtag(metas, i)))
+//@ loop 1 invariant [fresh] backing(result) > old(top())
+//@ loop 1 invariant [subsequence] forall(i, int, implies(0 <= i && i < len(result), 0 <= FilterSrc[i] && FilterSrc[i] < _done && result[i] == metas[FilterSrc[i]] && tag(result, i) == tag(metas, FilterSrc[i]) && call(f, result[i])), FilterSrc[i], result[i], tag(result, i))
+//@ loop 1 invariant [order-kept] forall(i, int, forall(j, int, implies(0 <= i && i < j && j < len(result), FilterSrc[i] < FilterSrc[j]), FilterSrc[j]), FilterSrc[i])
+//@ loop 1 invariant [complete] forall(k, int, implies(0 <= k && k < _done && call(f, metas[k]), 0 <= FilterPos[k] && FilterPos[k] < len(result) && FilterSrc[FilterPos[k]] == k), metas[k], FilterPos[k])
+//@ ghost after call append: FilterSrc = store(FilterSrc, len(result) - 1, _idx)
+//@ ghost after call append: FilterPos = store(FilterPos, _idx, len(result) - 1)
+
+// the self filter of Inject
+//@ func (*Property).Inject$1
+//@ property C02
+//@ pure
+//@ requires [candidate-built] m != nil && m.Base != nil && PointOK(n)
+//@ assigns nothing
+//@ ensures [not-self] result == !IsSelfOf(n, m)
+
+// dependOn records the holder on the injected version (what the stale-version check of C03 reads).
+//@ func (*Meta).dependOn
+//@ property C03
+//@ requires [metas-built] MetaOK(m) && dependent != nil
+//@ assigns m.Dependent, m.dependentSet.Dom, m.dependentSet.Val
+//@ ensures [dependents-grow] len(m.Dependent) >= len(old(m.Dependent)) && forall(i, int, implies(0 <= i && i < len(old(m.Dependent)), m.Dependent[i] == oldat(old(m.Dependent), i)))
+//@ ensures [recorded] m.dependentSet.Dom[dependent.ID()] && implies(!old(m.dependentSet.Dom[dependent.ID()]), len(m.Dependent) == len(old(m.Dependent)) + 1 && m.Dependent[len(m.Dependent) - 1] == dependent)
+
+//@ spec func SomeNonSelf(n *Property, c []*Meta) bool = exists(k, int, 0 <= k && k < len(c) && !IsSelfOf(n, c[k]))
+//@ spec func IsComponentPoint(n *Property) bool = n.PropertyType == PropertyTypeComponent
+
+//@ func (*Property).Inject
+//@ property C01 C02 C03 C06 C07 C09
+//@ requires [point-wellformed] PointOK(n)
+//@ requires [field-settable] implies(IsComponentPoint(n) && len(metas) != 0, RCanSet(n.Value) && RTypeOf(n.Value) == n.Type && RLoc(n.Value) <= RTop)
+//@ requires [candidates-wellformed] forall(k, int, implies(0 <= k && k < len(metas), MetaOK(metas[k])), metas[k])
+//@ requires [kind-injectable] implies(len(metas) != 0, n.Type.Kind() != 17)
+//@ requires [candidates-assignable] forall(k, int, implies(0 <= k && k < len(metas) && !IsSelfOf(n, metas[k]), RAssignable(RTypeOf(metas[k].Value), TargetType(n))), metas[k])
+//@ assigns n.Injects, RMem, RTop, any(n.Holder.Meta.Dependent), any(n.Holder.Meta.dependentSet.Dom), any(n.Holder.Meta.dependentSet.Val), FilterSrc, FilterPos
+//@ ensures [not-component-errors] implies(!IsComponentPoint(n), result != nil && RMem == old(RMem) && n.Injects == old(n.Injects))
+//@ ensures [required-empty-errors] implies(IsComponentPoint(n) && len(metas) == 0, (result != nil) == n.IsRequired() && RMem == old(RMem) && n.Injects == old(n.Injects))
+//@ ensures [self-only] implies(IsComponentPoint(n) && len(metas) != 0 && !SomeNonSelf(n, metas), (result != nil) == n.IsRequired() && RMem == old(RMem) && n.Injects == old(n.Injects))
+//@ ensures [injected] implies(IsComponentPoint(n) && SomeNonSelf(n, metas), result == nil && len(n.Injects) >= 1)
+//@ ensures [records-injects] implies(IsComponentPoint(n) && SomeNonSelf(n, metas), forall(i, int, implies(0 <= i && i < len(n.Injects), 0 <= FilterSrc[i] && FilterSrc[i] < len(metas) && n.Injects[i] == metas[FilterSrc[i]]), n.Injects[i]) && forall(i, int, forall(j, int, implies(0 <= i && i < j && j < len(n.Injects), FilterSrc[i] < FilterSrc[j]), FilterSrc[j]), FilterSrc[i]) && forall(k, int, implies(0 <= k && k < len(metas) && !IsSelfOf(n, metas[k]), 0 <= FilterPos[k] && FilterPos[k] < len(n.Injects) && FilterSrc[FilterPos[k]] == k), metas[k]))
+//@ ensures [never-self] implies(result == nil && IsComponentPoint(n) && SomeNonSelf(n, metas), forall(i, int, implies(0 <= i && i < len(n.Injects), !IsSelfOf(n, n.Injects[i])), n.Injects[i]))
+//@ ensures [single-sets-first] implies(IsComponentPoint(n) && SomeNonSelf(n, metas) && SingleP(n), RMem[RLoc(n.Value)] == n.Injects[0].Value)
+//@ ensures [slice-sets-all] implies(IsComponentPoint(n) && SomeNonSelf(n, metas) && !SingleP(n), RSliceLen(RMem[RLoc(n.Value)]) == len(n.Injects) && forall(i, int, implies(0 <= i && i < len(n.Injects), RMem[RElemLoc(RMem[RLoc(n.Value)], i)] == n.Injects[i].Value), n.Injects[i]))
+//@ ensures [inject-frame] forall(l, int, implies(l <= old(RTop) && l != RLoc(n.Value), RMem[l] == old(RMem[l])))
+//@ ensures [records-holder] implies(IsComponentPoint(n) && SomeNonSelf(n, metas), forall(i, int, implies(0 <= i && i < len(n.Injects) && (i == 0 || !SingleP(n)), n.Injects[i].dependentSet.Dom[n.Holder.Meta.ID()]), n.Injects[i]))
+//@ loop 1 invariant [bounds] 0 <= _done && _done <= len(metas)
+//@ loop 1 invariant [slice-in-place] RSliceLen(RMem[RLoc(n.Value)]) == len(metas) && RTypeOf(RMem[RLoc(n.Value)]) == n.Type && RTop >= old(RTop)
+//@ loop 1 invariant [fresh-elements] forall(i, int, implies(0 <= i && i < len(metas), RElemLoc(RMem[RLoc(n.Value)], i) > old(RTop)), RElemLoc(RMem[RLoc(n.Value)], i)) && forall(i, int, forall(j, int, implies(0 <= i && i < j && j < len(metas), RElemLoc(RMem[RLoc(n.Value)], i) != RElemLoc(RMem[RLoc(n.Value)], j))))
+//@ loop 1 invariant [elements-set] forall(i, int, implies(0 <= i && i < _done, RMem[RElemLoc(RMem[RLoc(n.Value)], i)] == metas[i].Value), metas[i])
+//@ loop 1 invariant [holders-recorded] forall(i, int, implies(0 <= i && i < _done, metas[i].dependentSet.Dom[n.Holder.Meta.ID()]), metas[i])
+//@ loop 1 invariant [frame] forall(l, int, implies(l <= old(RTop) && l != RLoc(n.Value), RMem[l] == old(RMem[l])))
+//@ loop 1 invariant [metas-kept] forall(k, int, implies(0 <= k && k < len(metas), MetaOK(metas[k])), metas[k]) && n.Injects == old(n.Injects)
